@@ -326,6 +326,11 @@ def skeleton(el):
 
 def c14n(x) -> bytes:
     el = parse(x)
+    if el.getparent() is not None:
+        import copy
+
+        el = copy.deepcopy(el)  # a root of its own: in-scope namespaces travel with it
+        el.tail = None
     return etree.tostring(el, method="c14n2")
 
 
